@@ -36,10 +36,10 @@ def run_mutant(name, apply, expected, run_tests=True, only=None):
                 rc, out = sh(f"VERIF_ROOT={ROOT} PKSIM_PROFILE=checked {SIM}/target/release/pksim check {pid} --tier quick", cwd=ROOT)
             else:
                 rc, out = sh(f"./check {pid} --tier quick", cwd="/verif")
-            if pid == "C06" and rc == 0 and SIM:
-                # second build: the library's `testable` feature on (what ./check C06 does)
-                sh("CARGO_NET_OFFLINE=true cargo build --release --offline --features lib-testable --target-dir target-testable 2>&1 | tail -5", cwd=SIM)
-                rc, out = sh(f"VERIF_ROOT={ROOT} PKSIM_PROFILE=checked PKSIM_EVIDENCE_SUFFIX=testable {SIM}/target-testable/release/pksim check {pid} --tier quick", cwd=ROOT)
+            if pid in ("C02", "C03", "C06") and rc == 0 and SIM:
+                # second build: every optional library feature on (what ./check does for these families)
+                sh("CARGO_NET_OFFLINE=true cargo build --release --offline --features lib-all-features --target-dir target-testable 2>&1 | tail -5", cwd=SIM)
+                rc, out = sh(f"VERIF_ROOT={ROOT} PKSIM_PROFILE=checked PKSIM_EVIDENCE_SUFFIX=allfeat {SIM}/target-testable/release/pksim check {pid} --tier quick", cwd=ROOT)
             if rc != 0:
                 clauses = [l.strip()[8:] for l in out.splitlines() if l.strip().startswith("clause:")]
                 fired[pid] = {"exit": rc, "clauses": clauses[:6]}
